@@ -291,6 +291,11 @@ class Runner:
                     if any(any(x is w for x in self._wlist(n, sl)) for n in self.names for sl in (0, 1, 2)):
                         obj.param.unwatch(w)
             self._in(node, go)
+        elif k == 'clsSet':
+            # the class-level default is re-assigned while the program works on an instance
+            p = s['p']
+            node = self._node('clsSet', p, self._val(p), s['v'])
+            self._in(node, lambda: setattr(self.cls, self.names[p], s['v']))
         elif k == 'other':
             self._node('other', s['k'])['res'] = 'ok'
             if self.twin is not None:
@@ -392,6 +397,10 @@ def gen_case(rng, prop, max_params=4, max_watchers=5, faults=False, size=8):
         shared = True          # (only switches the attribute watchers off: `shared` is ignored at class level)
     nb = rng.randint(0, 4)
     state = {'next_wid': 0, 'shared': set(), 'made': []}
+    # a second instance of the class (see below); decided here because it rules out class-level assignments:
+    # the class default is what both instances read until they are assigned, one object's statement would
+    # then change the other's values, and the two objects are modelled as independent worlds
+    second = level == 'instance' and not shared and rng.random() < 0.35
 
     def mk_watcher(body_idx, rank_limit=None):
         ps = rng.sample(range(n), rng.randint(1, min(n, 3)))
@@ -424,6 +433,8 @@ def gen_case(rng, prop, max_params=4, max_watchers=5, faults=False, size=8):
     def stmt(depth, limit, in_body):
         """limit: parameters < limit may be assigned"""
         kinds = ['set'] * 5 + ['update'] * 2 + ['batch', 'discard', 'trigger', 'try', 'updateCtx'] + ([] if shared else ['setSlot'])
+        if level == 'instance' and not second and any(i not in events for i in range(n)):
+            kinds += ['clsSet']
         if not in_body:
             kinds += ['watch', 'unwatch']
         elif rng.random() < 0.25:
@@ -434,7 +445,7 @@ def gen_case(rng, prop, max_params=4, max_watchers=5, faults=False, size=8):
             if rng.random() < 0.15:
                 kinds += ['raiseBase']
         if limit == 0:
-            kinds = [k for k in kinds if k in ('batch', 'discard', 'try', 'raise', 'raiseBase', 'watch', 'unwatch')] or ['try']
+            kinds = [k for k in kinds if k in ('batch', 'discard', 'try', 'raise', 'raiseBase', 'watch', 'unwatch', 'clsSet')] or ['try']
         k = rng.choice(kinds)
         if depth <= 0 and k in ('batch', 'discard', 'try', 'updateCtx'):
             if not limit:
@@ -442,6 +453,10 @@ def gen_case(rng, prop, max_params=4, max_watchers=5, faults=False, size=8):
             k = 'set'
         def pv(i):
             return rng.choice([1, 1, 1, 0, 7]) if i in events else value()
+        if k == 'clsSet':
+            # any ordinary parameter (nothing is dispatched on the instance, so no rank discipline); valid values only
+            p = rng.choice([i for i in range(n) if i not in events])
+            return {'s': 'clsSet', 'p': p, 'v': rng.choice([0, 1, 2, 3, 7])}
         if k == 'set':
             p = rng.randrange(limit)
             return {'s': 'set', 'p': p, 'v': pv(p)}
@@ -564,7 +579,7 @@ def gen_case(rng, prop, max_params=4, max_watchers=5, faults=False, size=8):
                  {'s': 'set', 'p': p, 'v': rng.choice([1, 1, 0, 7]) if p in events else value()}
             program.insert(rng.randrange(len(program) + 1), st)
     extra = {}
-    if level == 'instance' and not shared and rng.random() < 0.35:
+    if second:
         # a second instance of the class with watchers of its own; `other k` statements - in the program, inside
         # its context bodies, at the end of callbacks of the first object - run statement list k on it
         watchers2 = [mk_for_body() for _ in range(rng.randint(1, 3))]
